@@ -13,7 +13,11 @@ RULE = ("(a) animations built through KeyframeAnimation::SetTimestamps / AddKeyf
         "first, tracks first) with 1..500 frames (quick; up to 10^4 thorough), 0..8 tracks, 1..16 components, data types "
         "int8..uint32 / float32 (incl. NaN / Inf / -0 patterns in unquantized data), optional per-track quantization (1..30 "
         "bits; also requested on integer tracks, where it must be ignored), encoder / decoder speeds 0..10, optionally one "
-        "or two tracks removed again with PointCloud::DeleteAttribute before encoding (non-contiguous ids); encoded with "
+        "or two tracks removed again with PointCloud::DeleteAttribute before encoding (non-contiguous ids), the expert "
+        "options KeyframeAnimationEncoder takes through EncoderOptions (use_built_in_attribute_compression off/on, "
+        "symbol_encoding_method), tracks that rest and then move (2..16 components, int8..int32 and quantized floats, large "
+        "corrections only in late frames, raw storage in 60 %), and object-reuse histories (ONE encoder and ONE decoder "
+        "object for 2..3 animations with independent frame counts; the oracle applies to the last); encoded with "
         "KeyframeAnimationEncoder, decoded with KeyframeAnimationDecoder. Oracle on the implementation's output against "
         "the INPUT data: decode succeeds, same number of frames, timestamps under id 0 and every track under the id "
         "AddKeyframes returned (distinct, non-zero ids; keyframes(id) / timestamps() non-null), same data type and "
@@ -105,7 +109,7 @@ def rand_animation(rng, max_frames):
     return n, tsb, tracks
 
 
-def anim_case(rng, n, tsb, tracks, order, speed, dels, tags):
+def anim_case(rng, n, tsb, tracks, order, speed, dels, tags, extra=(), history=()):
     atts = [G.Attr(G.GENERIC, DT["f32"], 1, False, 0, n, None, tsb)]
     for k, tr in enumerate(tracks):
         atts.append(G.Attr(G.GENERIC, tr["dt"], tr["nc"], False, k + 1, n, None, tr["data"]))
@@ -123,7 +127,10 @@ def anim_case(rng, n, tsb, tracks, order, speed, dels, tags):
                 req[k] = tracks[k]["q"]
     if dels:
         toks.append("del=" + ",".join(str(d) for d in sorted(dels)))
-    op = "anim " + " ".join(toks) + " -- " + pc.to_text()
+    toks += list(extra)
+    body = " ".join(toks) + " -- " + pc.to_text()
+    # history: earlier animations pushed through the SAME encoder / decoder objects (op animh reports the last one)
+    op = ("animh " + " ;; ".join(list(history) + [body])) if history else ("anim " + body)
 
     def parts(hout):
         return hout.split(" | ")
@@ -326,13 +333,94 @@ def generate(rng, tier):
                 tags.append("quantized:float-track" if tr["dt"] == DT["f32"] else "quantization-requested-on-integer-track")
         if dels:
             tags.append(f"deleted-tracks:{len(dels)}")
-        cases.append(anim_case(rng, n, tsb, tracks, order, speed, dels, tuple(sorted(set(tags))) + ("gen:animation",)))
+        extra = expert_extra(rng, 0.25)
+        tags += [t.replace("=", ":") for t in extra]
+        cases.append(anim_case(rng, n, tsb, tracks, order, speed, dels, tuple(sorted(set(tags))) + ("gen:animation",), extra=extra))
+    # ---- tracks that rest and then move (large corrections only in late frames), raw storage in a good share
+    for _ in range(600 if thorough else 200):
+        n, tsb, tracks = rest_then_move(rng)
+        extra = expert_extra(rng, 0.6)
+        speed = (rng.randint(0, 10), rng.randint(0, 10))
+        tags = ["gen:rest-then-move"] + [t.replace("=", ":") for t in extra] + [f"components:{tr['nc']:02d}" for tr in tracks]
+        tags += ["quantized:float-track" for tr in tracks if tr["q"] is not None]
+        cases.append(anim_case(rng, n, tsb, tracks, rng.randint(0, 1), speed, set(), tuple(sorted(set(tags))), extra=extra))
+    # ---- object-reuse histories: one KeyframeAnimationEncoder and one KeyframeAnimationDecoder for 2..3 animations
+    #      with independently drawn frame counts / track sets; the oracle applies to the last one
+    for _ in range(450 if thorough else 150):
+        hist = []
+        for _k in range(rng.randint(1, 2)):
+            n0, tsb0, tr0 = rand_animation(rng, 60) if rng.random() < 0.7 else rest_then_move(rng)
+            c0 = anim_case(rng, n0, tsb0, tr0, rng.randint(0, 1), (rng.randint(0, 10), rng.randint(0, 10)), set(), (), extra=expert_extra(rng, 0.3))
+            hist.append(body_of(c0))
+        n, tsb, tracks = rand_animation(rng, 60) if rng.random() < 0.7 else rest_then_move(rng)
+        extra = expert_extra(rng, 0.3)
+        cases.append(anim_case(rng, n, tsb, tracks, rng.randint(0, 1), (rng.randint(0, 10), rng.randint(0, 10)), set(),
+                               ("gen:object-reuse-history", f"history-length:{len(hist) + 1}"), extra=extra, history=hist))
     for _ in range(6000 if thorough else 1500):
         cases.append(api_case(rng, ("gen:api-call-sequence",)))
     return cases
 
 
+def body_of(c):
+    return c.op.split(" ", 1)[1]
+
+
+def rest_then_move(rng):
+    """tracks that rest and then move: the large (after delta prediction) values occur only in late frames"""
+    n = rng.choice([8, 12, 20, 40, 100, 200])
+    ts = [f32(i / 30.0) for i in range(n)]
+    tsb = b"".join(struct.pack("<f", v) for v in ts)
+    tracks = []
+    for _ in range(rng.randint(1, 3)):
+        dt = rng.choice(["i8", "u8", "i16", "u16", "i32", "f32", "f32"])
+        nc = rng.choice([2, 3, 4, 4, 8, 9, 16]) if rng.random() < 0.8 else rng.randint(2, 16)
+        start = rng.randint(max(1, n // 2), n - 1)          # the first n scalars (= n/nc frames) are all at rest
+        q = None
+        if dt == "f32":
+            q = rng.choice([8, 9, 10, 11, 14, 16, 17, 20, 24]) if rng.random() < 0.9 else None
+            lo = f32(rng.choice([0.0, -1.0, 5.0]))
+            amp = 10.0 ** rng.randint(-1, 3)
+            rows = []
+            for i in range(n):
+                if i < start:
+                    rows.append([lo] * nc)
+                else:
+                    rows.append([f32(lo + amp * (rng.random() if rng.random() < 0.7 else rng.choice([0.0, 1.0]))) for _ in range(nc)])
+            data = b"".join(struct.pack("<" + "f" * nc, *r) for r in rows)
+        else:
+            lim = {"i8": (-128, 127), "u8": (0, 255), "i16": (-32768, 32767), "u16": (0, 65535), "i32": (-2 ** 30, 2 ** 30)}[dt]
+            rest = rng.choice([0, 1, lim[0] if lim[0] < 0 else 0, 3])
+            big = rng.choice([lim[1], lim[1] // 2, 300, 70000, 2 ** 24 + 5, 255, 256, 65535, 65536])
+            big = max(lim[0], min(lim[1], big))
+            rows = []
+            for i in range(n):
+                if i < start:
+                    rows.append([rest] * nc)
+                else:
+                    rows.append([rng.choice([rest, big, -big if lim[0] < 0 else big // 2, rng.randint(lim[0], lim[1])]) if rng.random() < 0.6 else rest for _ in range(nc)])
+                    rows[-1] = [max(lim[0], min(lim[1], v)) for v in rows[-1]]
+            data = b"".join(struct.pack("<" + DT_FMT[DT[dt]] * nc, *r) for r in rows)
+        tracks.append({"dt": DT[dt], "nc": nc, "q": q, "data": data})
+    return n, tsb, tracks
+
+
+def expert_extra(rng, p_builtin_off):
+    extra = []
+    if rng.random() < p_builtin_off:
+        extra.append("builtin=0")
+    elif rng.random() < 0.1:
+        extra.append("builtin=1")
+    if rng.random() < 0.15:
+        extra.append(f"g:symbol_encoding_method={rng.choice([0, 1])}")
+    return extra
+
+
 def anim_case_from_op(line):
+    if line.startswith("animh "):
+        parts = line[6:].split(" ;; ")
+        c = anim_case_from_op("anim " + parts[-1])
+        c.op = line
+        return c
     head, gt = line.split(" -- ", 1)
     o = dict(t.split("=", 1) for t in head.split()[1:] if "=" in t)
     g, _ = G.parse_geom(gt.split())
@@ -345,7 +433,8 @@ def anim_case_from_op(line):
         if key[0] == "q" and key[1:].isdigit() and 1 <= int(key[1:]) <= len(kept):
             tracks[kept[int(key[1:]) - 1]]["q"] = int(v)
     speed = tuple(int(x) for x in o["speed"].split(",")) if "speed" in o else None
-    return anim_case(None, n, tsb, tracks, int(o.get("order", "0")), speed, dels, ("replay",))
+    extra = [t for t in head.split()[1:] if t.startswith(("builtin=", "g:"))]
+    return anim_case(None, n, tsb, tracks, int(o.get("order", "0")), speed, dels, ("replay",), extra=extra)
 
 
 def replay_cases(lines):
@@ -353,7 +442,7 @@ def replay_cases(lines):
     for l in lines:
         if l.startswith("animapi "):
             out.append(Case(l))     # correspondence; the id oracle needs the generator's call list
-        elif l.startswith("anim "):
+        elif l.startswith(("anim ", "animh ")):
             out.append(anim_case_from_op(l))
         else:
             out.append(Case(l, model=False))
